@@ -155,6 +155,15 @@ pub fn validate_and_iter<T>(
     required_scratch: usize,
     mut chunk_fn: impl FnMut(&mut [T], &mut [T]),
 ) -> Result<(), ()> {
+    #[cfg(rustfft_verif)]
+    let verif_scope = crate::verif_hooks::IterScope::enter(
+        "iter",
+        chunk_size,
+        buffer.len(),
+        0,
+        scratch.len(),
+        required_scratch,
+    );
     if scratch.len() < required_scratch {
         return Err(());
     }
@@ -162,6 +171,8 @@ pub fn validate_and_iter<T>(
 
     // Now that we know the two slices are the same length, loop over each one, splicing off chunk_size at a time, and calling chunk_fn on each
     while buffer.len() >= chunk_size {
+        #[cfg(rustfft_verif)]
+        verif_scope.chunk(1, buffer.len());
         let (head, tail) = buffer.split_at_mut(chunk_size);
         buffer = tail;
 
@@ -185,8 +196,19 @@ pub fn validate_and_iter_unroll2x<T>(
     mut chunk2x_fn: impl FnMut(&mut [T]),
     mut chunk_fn: impl FnMut(&mut [T]),
 ) -> Result<(), ()> {
+    #[cfg(rustfft_verif)]
+    let verif_scope = crate::verif_hooks::IterScope::enter(
+        "iter_unroll2x",
+        chunk_size,
+        buffer.len(),
+        0,
+        0,
+        0,
+    );
     // Now that we know the two slices are the same length, loop over each one, splicing off chunk_size at a time, and calling chunk_fn on each
     while buffer.len() >= chunk_size * 2 {
+        #[cfg(rustfft_verif)]
+        verif_scope.chunk(2, buffer.len());
         let (head, tail) = buffer.split_at_mut(chunk_size * 2);
         buffer = tail;
 
@@ -194,6 +216,8 @@ pub fn validate_and_iter_unroll2x<T>(
     }
 
     if buffer.len() == chunk_size {
+        #[cfg(rustfft_verif)]
+        verif_scope.chunk(1, buffer.len());
         chunk_fn(buffer);
         Ok(())
     } else if buffer.len() == 0 {
@@ -217,6 +241,15 @@ pub fn validate_and_zip<T>(
     required_scratch: usize,
     mut chunk_fn: impl FnMut(&[T], &mut [T], &mut [T]),
 ) -> Result<(), ()> {
+    #[cfg(rustfft_verif)]
+    let verif_scope = crate::verif_hooks::IterScope::enter(
+        "zip",
+        chunk_size,
+        buffer1.len(),
+        buffer2.len(),
+        scratch.len(),
+        required_scratch,
+    );
     if scratch.len() < required_scratch {
         return Err(());
     }
@@ -228,6 +261,8 @@ pub fn validate_and_zip<T>(
 
     // Now that we know the two slices are the same length, loop over each one, splicing off chunk_size at a time, and calling chunk_fn on each
     while buffer1.len() >= chunk_size {
+        #[cfg(rustfft_verif)]
+        verif_scope.chunk(1, buffer1.len());
         let (head1, tail1) = buffer1.split_at(chunk_size);
         buffer1 = tail1;
 
@@ -258,12 +293,23 @@ pub fn validate_and_zip_unroll2x<T>(
     mut chunk2x_fn: impl FnMut(&[T], &mut [T]),
     mut chunk_fn: impl FnMut(&[T], &mut [T]),
 ) -> Result<(), ()> {
+    #[cfg(rustfft_verif)]
+    let verif_scope = crate::verif_hooks::IterScope::enter(
+        "zip_unroll2x",
+        chunk_size,
+        buffer1.len(),
+        buffer2.len(),
+        0,
+        0,
+    );
     if buffer1.len() != buffer2.len() {
         return Err(());
     }
 
     // Now that we know the two slices are the same length, loop over each one, splicing off chunk_size at a time, and calling chunk_fn on each
     while buffer1.len() >= chunk_size * 2 {
+        #[cfg(rustfft_verif)]
+        verif_scope.chunk(2, buffer1.len());
         let (head1, tail1) = buffer1.split_at(chunk_size * 2);
         buffer1 = tail1;
 
@@ -275,6 +321,8 @@ pub fn validate_and_zip_unroll2x<T>(
 
     // We have a remainder if the 2 chunks were uneven to start with, or if there's still data in the buffers -- in which case we want to indicate to the caller that there was an unwanted remainder
     if buffer1.len() == chunk_size {
+        #[cfg(rustfft_verif)]
+        verif_scope.chunk(1, buffer1.len());
         chunk_fn(buffer1, buffer2);
         Ok(())
     } else if buffer1.len() == 0 {
@@ -298,6 +346,15 @@ pub fn validate_and_zip_mut<T>(
     required_scratch: usize,
     mut chunk_fn: impl FnMut(&mut [T], &mut [T], &mut [T]),
 ) -> Result<(), ()> {
+    #[cfg(rustfft_verif)]
+    let verif_scope = crate::verif_hooks::IterScope::enter(
+        "zip_mut",
+        chunk_size,
+        buffer1.len(),
+        buffer2.len(),
+        scratch.len(),
+        required_scratch,
+    );
     if scratch.len() < required_scratch {
         return Err(());
     }
@@ -309,6 +366,8 @@ pub fn validate_and_zip_mut<T>(
 
     // Now that we know the two slices are the same length, loop over each one, splicing off chunk_size at a time, and calling chunk_fn on each
     while buffer1.len() >= chunk_size {
+        #[cfg(rustfft_verif)]
+        verif_scope.chunk(1, buffer1.len());
         let (head1, tail1) = buffer1.split_at_mut(chunk_size);
         buffer1 = tail1;
 
@@ -339,12 +398,23 @@ pub fn validate_and_zip_mut_unroll2x<T>(
     mut chunk2x_fn: impl FnMut(&mut [T], &mut [T]),
     mut chunk_fn: impl FnMut(&mut [T], &mut [T]),
 ) -> Result<(), ()> {
+    #[cfg(rustfft_verif)]
+    let verif_scope = crate::verif_hooks::IterScope::enter(
+        "zip_mut_unroll2x",
+        chunk_size,
+        buffer1.len(),
+        buffer2.len(),
+        0,
+        0,
+    );
     if buffer1.len() != buffer2.len() {
         return Err(());
     }
 
     // Now that we know the two slices are the same length, loop over each one, splicing off chunk_size at a time, and calling chunk_fn on each
     while buffer1.len() >= chunk_size * 2 {
+        #[cfg(rustfft_verif)]
+        verif_scope.chunk(2, buffer1.len());
         let (head1, tail1) = buffer1.split_at_mut(chunk_size * 2);
         buffer1 = tail1;
 
@@ -356,6 +426,8 @@ pub fn validate_and_zip_mut_unroll2x<T>(
 
     // We have a remainder if the 2 chunks were uneven to start with, or if there's still data in the buffers -- in which case we want to indicate to the caller that there was an unwanted remainder
     if buffer1.len() == chunk_size {
+        #[cfg(rustfft_verif)]
+        verif_scope.chunk(1, buffer1.len());
         chunk_fn(buffer1, buffer2);
         Ok(())
     } else if buffer1.len() == 0 {
